@@ -457,6 +457,10 @@ Record Inv (s : st) : Prop := {
   m_sleep : forall p, pl s = PSleep p ->
               lastping s <= lastw s /\ lastw s <= now s /\ lastw s + 30 * tps <= p <= lastw s + 40 * tps /\ now s <= p;
   m_open_pl : cst s = Open -> pl s <> PNone;
+  m_wait_nodup : NoDup (waiting s);
+  m_wait_seen : forall c, In c (waiting s) -> mem_z c (seen s) = true;
+  m_wait_map : forall c, In c (waiting s) -> ~ In c (tagmap s);
+  m_wait_idle : cst s = Idle -> opn s = None -> waiting s = [];
 }.
 
 Lemma inv_init t0 : Inv (init t0).
@@ -513,20 +517,29 @@ Proof.
   pose proof (m_nodup _ I) as I1; pose proof (m_map_seen _ I) as I2; pose proof (m_exp_seen _ I) as I3;
   pose proof (m_closed _ I) as I4; pose proof (m_idle _ I) as I5; pose proof (m_opn_pl _ I) as I6;
   pose proof (m_wokenf _ I) as I7; pose proof (m_pre _ I) as I8; pose proof (m_dl _ I) as I9; pose proof (m_lp _ I) as I10;
-  pose proof (m_sleep _ I) as I11; pose proof (m_open_pl _ I) as I12. clear I.
-  destruct s as [nw ch op tm sn ex q sd rc pd pa dl pls lw lpg]; cbn in *.
+  pose proof (m_sleep _ I) as I11; pose proof (m_open_pl _ I) as I12; pose proof (m_wait_nodup _ I) as I13;
+  pose proof (m_wait_seen _ I) as I14; pose proof (m_wait_map _ I) as I15; pose proof (m_wait_idle _ I) as I16. clear I.
+  destruct s as [nw ch op tm sn ex q sd rc pd pa dl pls lw lpg wt]; cbn in *.
   destruct l; cbn in H; unfold shutdown, send_ping, ar_fail, wake_fail, tick_ok in H; cbn in H; brk.
   all: constructor; cbn; intros; first [assumption | solve [auto] | fin].
   all: unfold mem_z in *.
   all: try (apply remove_z_nodup; assumption).
   all: try (apply nodup_snoc; [assumption | intros X; apply I2 in X; congruence]).
-  all: try (match goal with H : In _ (remove_z _ _) |- _ => apply remove_z_in in H; destruct H as [H _] end).
+  all: try (match goal with H : In _ (remove_z _ _) |- _ => apply remove_z_in in H; destruct H as [H ?] end).
   all: try (match goal with H : In _ (_ ++ [_]) |- _ => apply in_app_or in H; destruct H as [H|[H|[]]] end).
   all: try (match goal with H : (_ =? _) || _ = true |- _ =>
               apply orb_true_iff in H; destruct H as [H|H]; [apply Z.eqb_eq in H; subst|] end).
   all: subst; rewrite ?Z.eqb_refl; cbn; try reflexivity; try assumption.
   all: try (apply orb_true_iff; right); auto.
   all: try (apply I3; assumption); try (apply I2; assumption).
+  all: try match goal with H : In _ (remove_z _ _) |- _ => apply remove_z_in in H; destruct H as [H ?] end.
+  all: try (apply nodup_snoc; [assumption | intros X;
+              first [apply I14 in X; congruence | eapply I15; [|exact X]; apply (proj1 (mem_z_true _ _)); assumption]]).
+  all: try (apply I14; first [assumption | apply (proj1 (mem_z_true _ _)); assumption]).
+  all: try (intros X; apply remove_z_in in X; destruct X as [X _]; eapply I15; eassumption).
+  all: try (intros X; apply in_app_or in X; destruct X as [X|[X|[]]];
+            [eapply I15; eassumption
+            | subst; first [congruence | match goal with H : In _ _ |- _ => apply I14 in H end; congruence]]).
 Qed.
 
 Lemma run_inv ls : forall s s' e, Inv s -> run s ls = Some (s', e) -> Inv s'.
